@@ -110,6 +110,9 @@ class Oracle(simcheck.BaseOracle):
                     self.add("not-reopened", "market %s still closed after data arrived again" % mb.market_id)
                 if market.orders_cleared or market.market_cleared:
                     self.add("cleared-flags-not-reset", "market %s re-opened with cleared flags %s %s" % (mb.market_id, market.orders_cleared, market.market_cleared))
+                elif self.shared_flags(market):
+                    self.add("cleared-flags-not-reset", "market %s re-opened with ONE register for both cleared flags: marking a client's orders as "
+                             "collected marks its market summary as collected too" % mb.market_id)
 
     def finish_checks(self, run):
         # live removal rule on the real BaseFlumine (patched clock): only closed markets older than 3600 s, at close events only
@@ -174,6 +177,9 @@ class Oracle(simcheck.BaseOracle):
             m15 = fw.markets.markets.get("1.5")
             if m15 is None or m15.closed:
                 self.add("not-reopened", "live: market not re-opened by fresh data after its close")
+            elif self.shared_flags(m15):
+                self.add("cleared-flags-not-reset", "live: market re-opened with ONE register for both cleared flags (a client whose cleared orders "
+                         "have been collected is never asked for its cleared-market summary)")
             Clock.now_ = Clock.now_ + datetime.timedelta(minutes=15)
             fw._process_market_books(events.MarketBookEvent([book("1.5", "CLOSED", t0 + 8000)]))
             fw._process_close_market(fw.handler_queue.get_nowait())
@@ -254,6 +260,15 @@ class Oracle(simcheck.BaseOracle):
             datetime.datetime = real
             for ex in (fw.simulated_execution, fw.betfair_execution, fw.betdaq_execution):
                 ex.shutdown()
+
+    @staticmethod
+    def shared_flags(market):
+        """the two per-client registers of a (re-)opened market are independent: a name entered in one is not in the other"""
+        probe = "__verif_probe__"
+        market.orders_cleared.append(probe)
+        shared = probe in market.market_cleared
+        market.orders_cleared.remove(probe)
+        return shared
 
     def tags(self, run):
         t = set()
